@@ -8,6 +8,23 @@ ALL = [f'C{i:02d}' for i in range(1, 21)]
 
 # property -> (level text, level note, technique, design section)
 CHECKS = {
+    'C19': (
+        'Lean 4: Spec/Qasm.lean transcribes qelib1.inc / stdgates.inc — every library gate expanded into the built-ins U(theta,phi,lambda) and CX — '
+        'polymorphically in the angle and amplitude types. Props.C19 evaluates the same definitions exactly (angles in units of pi/4, amplitudes in '
+        'Q(zeta_8)) and the kernel decides that x, y, z, h, s, sdg, t, tdg, id, sx, sxdg, cx (both argument orders), cz, cy, swap, ch, ccx (15-gate '
+        'Clifford+T expansion = Toffoli), cswap and rx/ry/rz/cu1/crz at representable angles denote their textbook matrices (C19_qelib_*); an '
+        'undefined name is an error, never the identity (C19_undefined_gate); stdgates.inc has no sxdg (C19_stdgates3_no_sxdg); classical registers '
+        'are little-endian integers and writing a bit changes exactly that bit (C19_creg_value, C19_setBit_get, C19_setBit_other). T2: '
+        'Circuit.to_qasm text (both versions, random qubit_order and precision) is read by an independent syntactic reader and interpreted by the '
+        'compiled Lean semantics; its unitary must equal, up to global phase and within the requested precision, the Lean ordered product of the '
+        'circuit\'s operation matrices (C01), and for measured circuits (invert masks, repeated keys, classical controls, resets) the joint '
+        'distribution of the classical registers must equal that of the last record of each key under the Lean branching semantics (C02).',
+        'Trusted: Lean kernel; harness/qasm_reader.py (syntax) + harness + driver; Spec/Qasm.lean as transcription of qelib1.inc (Qiskit-extended) '
+        'with the OpenQASM matrices of U and CX; parameterised gates (rx, ry, rz, u*, crz, cu1 at generic angles) are exercised by T2 on floats '
+        'only; T2 sees generated circuits only.',
+        'Lean 4 proof (kernel-decided exact evaluation of the standard library; register laws) + differential correspondence through an independent reader',
+        'DESIGN.md §3 C19',
+    ),
     'C20': (
         'Lean 4 theorems over all schedules / fault sequences: Collector — in every state reachable by any order of job completions at most '
         '`concurrency` jobs are in flight, every started job is delivered or still running, no job is known (hence delivered) twice '
